@@ -5,6 +5,7 @@ mod completion;
 mod direct;
 mod ed;
 mod hist;
+mod histfile;
 mod keys;
 mod pty;
 
@@ -23,6 +24,7 @@ fn exec_line(req: &str) -> String {
     let f: Vec<&str> = req.split(' ').collect();
     let r = catch_unwind(AssertUnwindSafe(|| match f.first().copied() {
         Some("hist") => hist::exec(&f[1..]),
+        Some("hf") => histfile::exec(&f[1..]),
         Some(t) if t.starts_with("ed") => ed::exec(&f[1..]),
         Some("keys") => keys::exec(&f[1..]),
         Some(t @ ("direct" | "seg")) => direct::exec(t, &f[1..]),
@@ -49,6 +51,13 @@ fn main() {
     let mut out = std::io::BufWriter::new(proto_out);
     let mut ci = CharInfoEmitter::default();
     let mut emit = |req: String, out: &mut dyn Write| {
+        if req.starts_with("hf ") {
+            // unescaping a history file produces line feed / carriage return / backslash even
+            // when the request does not mention them
+            for l in ci.lines_for("10 13 92") {
+                writeln!(out, "{}", l).unwrap();
+            }
+        }
         for l in ci.lines_for(&req) {
             writeln!(out, "{}", l).unwrap();
         }
@@ -91,9 +100,14 @@ fn main() {
             };
             match target.as_str() {
                 "hist" => hist::gen(&ctx, &mut sink),
+                "hf10" => histfile::gen10(&ctx, &mut sink),
+                "hf12" => histfile::gen12(&ctx, &mut sink),
                 "ed" => ed::gen(&ctx, &mut sink),
                 "ed13" => ed::gen_profile(&ctx, "ed13", ed::Profile::Validator, &mut sink),
                 "ed17" => ed::gen_profile(&ctx, "ed17", ed::Profile::Malformed, &mut sink),
+                "ed07" => ed::gen_profile(&ctx, "ed07", ed::Profile::History, &mut sink),
+                "ed08" => ed::gen_profile(&ctx, "ed08", ed::Profile::Search, &mut sink),
+                "ed14" => ed::gen_profile(&ctx, "ed14", ed::Profile::Complete, &mut sink),
                 "keys" => keys::gen(&ctx, &mut sink),
                 "direct" => direct::gen_direct(&ctx, &mut sink),
                 "seg" => direct::gen_seg(&ctx, &mut sink),
